@@ -100,11 +100,19 @@ StringDictionaryRPFC::StringDictionaryRPFC(IteratorDictString *it,
       // Stores the last position with 0 to avoid confusions with 0 values
       // encoding VBytes.
       uint zero = pbeg - 1;
+      bool vbyte = false;
 
       for (; pbeg < pend; pbeg++) {
         int c = (int)(dict->textStrings[pbeg]);
 
-        if ((c != 0) || ((c == 0) && (pbeg == zero + 1)))
+        if (pbeg == zero + 1)
+          vbyte = true;
+
+        if (vbyte) {
+          // Any byte of the VByte but its closing one can be 0
+          rpdict[ptrpdict] = c;
+          vbyte = ((c & 0x80) == 0);
+        } else if (c != 0)
           rpdict[ptrpdict] = c;
         else {
           zero = pbeg;
@@ -133,18 +141,32 @@ StringDictionaryRPFC::StringDictionaryRPFC(IteratorDictString *it,
   size_t ibytes = 0;
   uint io = 0, strings = 0;
   beginnings[0] = 0;
-  uint zero = 0;
+  // Each internal string opens with its VByte: any byte of it but the closing
+  // one can be 0, and none of them ends the string
+  bool vbyte = true;
+  uchar *expanded = new uchar[maxlength + 8];
 
   while (io < ptrpdict) {
     if (rpdict[io] >= 0) {
-      if ((rpdict[io] == 0) && (io > zero + 1)) {
-        zero = io;
+      if ((rpdict[io] == 0) && !vbyte) {
+        vbyte = true;
         strings++;
         io++;
 
         if ((strings % (bucketsize - 1)) == 0)
           beginnings[strings / (bucketsize - 1)] = ibytes;
       } else {
+        if (vbyte) {
+          // The VByte is closed by the first byte with the highest bit set
+          uint symbol = rpdict[io];
+          uint len = 1;
+          expanded[0] = (uchar)symbol;
+          if (symbol >= rp->terminals)
+            len = rp->expandRule(symbol - rp->terminals, expanded);
+          for (uint i = 0; (i < len) && vbyte; i++)
+            vbyte = ((expanded[i] & 0x80) == 0);
+        }
+
         intStrings.push_back(rpdict[io]);
         io++;
         ibytes++;
@@ -157,6 +179,7 @@ StringDictionaryRPFC::StringDictionaryRPFC(IteratorDictString *it,
 
   beginnings[1 + strings / (bucketsize - 1)] = ibytes;
   delete[] rpdict;
+  delete[] expanded;
 
   // 3) Compressing the dictionary
   {
@@ -686,8 +709,11 @@ inline uint StringDictionaryRPFC::decodeString(uchar *str, uint *strLen,
 
   uint rule;
 
-  // The VByte is firstly extracted
-  while (read < 2) {
+  // The VByte is firstly extracted: two symbols at least, and up to its
+  // closing byte (the first one with the highest bit set)
+  bool closed = false;
+  while ((read < 2) || !closed) {
+    uint before = read;
     *ptr += decodeSymbol(&rule, *ptr, offset);
 
     if (rule >= rp->terminals)
@@ -696,6 +722,9 @@ inline uint StringDictionaryRPFC::decodeString(uchar *str, uint *strLen,
       vb[read] = (uchar)rule;
       read++;
     }
+
+    for (uint i = before; (i < read) && !closed; i++)
+      closed = ((vb[i] & 0x80) != 0);
   }
 
   uint shared;
